@@ -403,7 +403,8 @@ func c19pool() []string {
 		}
 		f.Close()
 	}
-	return append(pool, "127.0.0.1", "10.1.2.3", "129.97.208.23", "129.97.208.24", "::1", "fe80::1")
+	// link-local addresses with a zone, as net/http reports them for such peers: three different proxies
+	return append(pool, "127.0.0.1", "10.1.2.3", "129.97.208.23", "129.97.208.24", "::1", "fe80::1", "fe80::1%eth0", "fe80::1%eth1", "fe80::2%eth0")
 }
 
 // ---------------------------------------------------------------------------------------------
@@ -530,6 +531,9 @@ func c19countryStats(r *vh.Run, pool []string) {
 		sub := pool[rng.Intn(len(pool)):]
 		if k := 1 + rng.Intn(8); len(sub) > k {
 			sub = sub[:k]
+		}
+		if i%10 == 3 && len(pool) > 9 {
+			sub = pool[len(pool)-9:] // the hand-picked tail: loopback, private, zoned link-local addresses
 		}
 		nt := 1 + rng.Intn(len(types))
 		var ups []c19upd
